@@ -89,34 +89,42 @@ def run(chk):
     go = [f for f in lookups if f["name"] == "get_object" and len(f["params"]) == 3]
     r2.anchor(len(go) == 1, "Dispatch_Engine::get_object(name, loc, holder)")
     f = go[0]
-    flow = FnFlow(f)
     locs = ref_inits(f)
     nidx = 0
-    for n in walk(f["body"]):
-        idx_expr = None
-        what = None
-        if n.get("k") == "call" and n.get("name") == "at_index" and n.get("args"):
-            idx_expr, what, cont = n["args"][0], "at_index", n.get("obj")
-        elif n.get("k") == "call" and n.get("op") == "[]" and n.get("obj") is not None and n.get("args") and strip_casts(n["args"][0]).get("k") != "lit":
-            idx_expr, what, cont = n["args"][0], "operator[]", n["obj"]
-        elif n.get("k") == "call" and n.get("op") == "+" and n.get("args") and "begin" in expr_str(prog, f, n):
-            # iterator arithmetic begin() + idx
-            pass
-        if idx_expr is None:
-            continue
-        if not derives_from_cache(prog, f, idx_expr, locs):
-            continue
-        nidx += 1
-        ok = False
-        for a, t in atomic_facts(flow, n):
-            a = strip_casts(a)
-            if a.get("k") == "binop" and a.get("op") in ("<", ">") and t:
-                # exact bound: `index-variable < container.size()` (or mirrored); `<=` would admit one slot too many
-                small, big = (a["lhs"], a["rhs"]) if a["op"] == "<" else (a["rhs"], a["lhs"])
-                if "size" in expr_str(prog, f, big) and "size" not in expr_str(prog, f, small) and mentions_same(prog, f, small, idx_expr, locs):
-                    ok = True
-        r2.ob("get_object: %s(%s) under a size comparison" % (what, expr_str(prog, f, idx_expr)[:40]), ok, "%s:%d" % (f["file"], n["l"]), f["q"],
-              "index derived from the cached location is used without a bounds test: a node evaluated again on a shallower stack / smaller scope reads out of range")
+    # get_object itself and the closures it defines (a validation extracted into a local lambda sees the same cached values)
+    bodies = [f] + [g for g in prog.fns if g.get("kind") == "lambda" and g["unit"] == f["unit"] and strip_targs(g["q"]).startswith(strip_targs(f["q"]) + "::<lambda")]
+    outer_f = f
+    for f in bodies:
+      flow = FnFlow(f)
+      if f is not outer_f:
+          locs = dict(ref_inits(outer_f))
+          locs.update(ref_inits(f))
+      for n in walk(f["body"]):
+          idx_expr = None
+          what = None
+          if n.get("k") == "call" and n.get("name") == "at_index" and n.get("args"):
+              idx_expr, what, cont = n["args"][0], "at_index", n.get("obj")
+          elif n.get("k") == "call" and n.get("op") == "[]" and n.get("obj") is not None and n.get("args") and strip_casts(n["args"][0]).get("k") != "lit":
+              idx_expr, what, cont = n["args"][0], "operator[]", n["obj"]
+          elif n.get("k") == "call" and n.get("op") == "+" and n.get("args") and "begin" in expr_str(prog, f, n):
+              # iterator arithmetic begin() + idx
+              pass
+          if idx_expr is None:
+              continue
+          if not derives_from_cache(prog, f, idx_expr, locs):
+              continue
+          nidx += 1
+          ok = False
+          for a, t in atomic_facts(flow, n):
+              a = strip_casts(a)
+              if a.get("k") == "binop" and a.get("op") in ("<", ">") and t:
+                  # exact bound: `index-variable < container.size()` (or mirrored); `<=` would admit one slot too many
+                  small, big = (a["lhs"], a["rhs"]) if a["op"] == "<" else (a["rhs"], a["lhs"])
+                  if "size" in expr_str(prog, f, big) and "size" not in expr_str(prog, f, small) and mentions_same(prog, f, small, idx_expr, locs):
+                      ok = True
+          r2.ob("get_object: %s(%s) under a size comparison" % (what, expr_str(prog, f, idx_expr)[:40]), ok, "%s:%d" % (f["file"], n["l"]), f["q"],
+                "index derived from the cached location is used without a bounds test: a node evaluated again on a shallower stack / smaller scope reads out of range")
+    f = outer_f
     r2.require(1, "cache-derived indexings")
 
     # ------------------------------------------------------------------ R4.3
@@ -194,9 +202,28 @@ def run(chk):
     r5.anchor(rets, "returns in the cached-local branch")
     searched = []
     exact = 0
+    # a value handed out through a local closure (`if (auto *slot = hinted_slot()) return *slot;`) is judged by the closure's own returns
+    expanded = []
     for n in rets:
         e = strip_casts(n["e"])
-        txt = expr_str(prog, f, e)
+        via = None
+        for x in walk(e):
+            if x.get("k") == "ref" and x.get("rk") in ("local", "binding", "condvar"):
+                v = locs.get(x.get("vid"))
+                init = strip_casts(v["init"]) if v is not None and v.get("init") is not None else {}
+                if init.get("k") == "call" and init.get("op") == "()" and init.get("fn") is not None:
+                    g = prog.fn_by_id(f, init["fn"])
+                    if g is not None and g.get("kind") == "lambda":
+                        via = g
+        if via is None:
+            expanded.append((f, n))
+        else:
+            for r_ in walk(via["body"]):
+                if r_.get("k") == "return" and r_.get("e") is not None and not (strip_casts(r_["e"]).get("k") == "lit" and strip_casts(r_["e"]).get("lt") == "nullptr"):
+                    expanded.append((via, r_))
+    for f_, n in expanded:
+        e = strip_casts(n["e"])
+        txt = expr_str(prog, f_, e)
         if any(x.get("k") == "call" and x.get("name") == "get_object" for x in walk(e)):
             continue          # complete re-resolution
         if any(x.get("k") == "call" and x.get("name") in ("find", "find_if", "count", "lower_bound") for x in walk(e)) or \
